@@ -370,12 +370,16 @@ def trackChild (c : Child) : HM Unit := fun s =>
     (.ok (), { s with tape := tape, nl := s.nl ++ [.newSa ok.1 ok.2.1 ok.2.2, .newSa ik.1 ik.2.1 ik.2.2], sad := s.sad ++ [ok, ik],
                       me := s.me.setKids (s.me.ext.kids ++ [c]) })
 
-/-- `Xfrm.delete_child_sa` (a refusal is logged, never raised) followed by `child_sas.remove` -/
+/-- "if the record is (still) in `child_sas`": `Xfrm.delete_child_sa` (a refusal is logged, never raised) followed by
+    `child_sas.remove`; otherwise nothing.  (Both call sites have just established membership: `get_child_sa` returned the
+    record, or `deleting_child_sa in self.child_sas` was tested.) -/
 def untrackChild (c : Child) : HM Unit := fun s =>
-  let ok := outKey s.me c
-  let ik := inKey s.me c
-  (.ok (), { s with nl := s.nl ++ [.delSa ok.1 ok.2.1 ok.2.2, .delSa ik.1 ik.2.1 ik.2.2], sad := s.sad.filter fun e => e ≠ ok ∧ e ≠ ik,
-                    me := s.me.setKids (removeKid s.me.ext.kids c) })
+  if s.me.ext.kids.any (childEq c) then
+    let ok := outKey s.me c
+    let ik := inKey s.me c
+    (.ok (), { s with nl := s.nl ++ [.delSa ok.1 ok.2.1 ok.2.2, .delSa ik.1 ik.2.1 ik.2.2], sad := s.sad.filter fun e => e ≠ ok ∧ e ≠ ik,
+                      me := s.me.setKids (removeKid s.me.ext.kids c) })
+  else (.ok (), s)
 
 /-! ### which object a negotiation routine works on -/
 
@@ -727,6 +731,28 @@ def processInformationalRequest (request : Msg) : HM HRes := do
   let me ← getMe
   pure (.reply (mkResponse me.core 37 payloads))
 
+/-- the IKE_SA rekey branch of `process_create_child_sa_request`: refuse while anything else is going on; else create the
+    successor, negotiate on it, and — only when that succeeded — hand the CHILD_SAs over and become REKEYED -/
+def ikeRekeyRequest (now : Nat) (request : Msg) (p0 : Proposal) : HM (List Payload) := do
+  let me ← getMe
+  if me.core.st ≠ stESTABLISHED then pure [mkNotify 0 nTEMPORARY_FAILURE [] []]
+  else do
+    let new ← newXSa me.ext.conf now false p0.spi me.core.myAddr me.core.peerAddr
+    HM.modify fun s => { s with tmp := some new }
+    HM.tryCatch (do
+        let payloads ← negotiateIkeRequest .tmp request true
+        -- take over the existing CHILD_SAs
+        handOver true
+        pure payloads)
+      fun e => match e with
+        | .ike n => match n.body with
+            | .notify _ t _ _ =>
+              if t = nNO_PROPOSAL_CHOSEN ∨ t = nINVALID_KE_PAYLOAD then
+                some (do HM.modify (fun s => { s with tmp := none }); pure [n])
+              else none
+            | _ => none
+        | _ => none
+
 /-- `process_create_child_sa_request` -/
 def processCreateChildSaRequest (now : Nat) (request : Msg) : HM HRes := do
   checkInStates liveStates
@@ -734,26 +760,7 @@ def processCreateChildSaRequest (now : Nat) (request : Msg) : HM HRes := do
   match sa with
   | [] => HM.raise excPython
   | p0 :: _ =>
-    let payloads ← if p0.proto = 1 then do
-        let me ← getMe
-        if me.core.st ≠ stESTABLISHED then pure [mkNotify 0 nTEMPORARY_FAILURE [] []]
-        else do
-          let new ← newXSa me.ext.conf now false p0.spi me.core.myAddr me.core.peerAddr
-          HM.modify fun s => { s with tmp := some new }
-          HM.tryCatch (do
-              let payloads ← negotiateIkeRequest .tmp request true
-              -- take over the existing CHILD_SAs
-              handOver true
-              pure payloads)
-            fun e => match e with
-              | .ike n => match n.body with
-                  | .notify _ t _ _ =>
-                    if t = nNO_PROPOSAL_CHOSEN ∨ t = nINVALID_KE_PAYLOAD then
-                      some (do HM.modify (fun s => { s with tmp := none }); pure [n])
-                    else none
-                  | _ => none
-              | _ => none
-      else childNegotiationReq request
+    let payloads ← if p0.proto = 1 then ikeRekeyRequest now request p0 else childNegotiationReq request
     let me ← getMe
     pure (.reply (mkResponse me.core 36 payloads))
 
@@ -916,61 +923,65 @@ def processIkeAuthResponse (response : Msg) : HM HRes := do
     setState stESTABLISHED
     pure .nothing
 
+/-- the IKE_SA rekey branch of `process_create_child_sa_response` (`me`: the object as read on entry) -/
+def ikeRekeyResponse (now : Nat) (response : Msg) (me : XSa) : HM HRes :=
+  match getNotifies response nINVALID_KE_PAYLOAD true with
+  | (_, _, data) :: _ => do
+    let r ← handleInvalidKe data
+    modCore fun k => { k with request := some r }
+    pure (.request r)
+  | [] =>
+    if ¬ (getNotifies response nTEMPORARY_FAILURE true).isEmpty then do
+      let j ← popNum
+      modCore fun k => { k with st := stESTABLISHED, rekeyAt := now + j }
+      pure .nothing
+    else if ¬ (getNotifies response nNO_ADDITIONAL_SAS true).isEmpty then do
+      setState stESTABLISHED
+      let r ← generateDeleteIkeSaRequest
+      pure (.request r)
+    else do
+      match me.core.request with
+      | none => HM.raise excPython
+      | some req => let _ ← liftE (payNonce req true)
+      negotiateIkeResponse .succ response true true
+      handOver false
+      let r ← generateDeleteIkeSaRequest
+      pure (.request r)
+
+/-- the CHILD_SA branch of `process_create_child_sa_response` (`prev`: the state on entry) -/
+def childSaResponse (prev : Nat) (response : Msg) : HM HRes :=
+  match getNotifies response nINVALID_KE_PAYLOAD true with
+  | (_, _, data) :: _ => do
+    let r ← handleInvalidKe data
+    modCore fun k => { k with request := some r }
+    pure (.request r)
+  | [] => do
+    setState stESTABLISHED
+    match ← childNegotiationRes response with
+    | .created =>
+      if prev = stREK_CHILD_REQ_SENT then do
+        let me ← getMe
+        match me.ext.rekeying with
+        | some old =>
+          if me.ext.kids.any (childEq old) then do
+            let r ← generateDeleteChildSaRequest old
+            pure (.request r)
+          else pure .nothing
+        | none => pure .nothing
+      else pure .nothing
+    | .rejected => pure .nothing
+    | .invalid => do
+      let me ← getMe
+      match me.ext.creating with
+      | none => HM.raise excPython
+      | some c => let r ← generateDeleteChildSaRequest c; pure (.request r)
+
 /-- `process_create_child_sa_response` -/
 def processCreateChildSaResponse (now : Nat) (response : Msg) : HM HRes := do
   checkInStates [stNEW_CHILD_REQ_SENT, stREK_CHILD_REQ_SENT, stREK_IKE_SA_REQ_SENT]
   abortOnErrorNotifies response true [38, 14, 35, 34, 44, 43, 36, 37, 17]
   let me ← getMe
-  if me.core.st = stREK_IKE_SA_REQ_SENT then
-    match getNotifies response nINVALID_KE_PAYLOAD true with
-    | (_, _, data) :: _ => do
-      let r ← handleInvalidKe data
-      modCore fun k => { k with request := some r }
-      pure (.request r)
-    | [] =>
-      if ¬ (getNotifies response nTEMPORARY_FAILURE true).isEmpty then do
-        let j ← popNum
-        modCore fun k => { k with st := stESTABLISHED, rekeyAt := now + j }
-        pure .nothing
-      else if ¬ (getNotifies response nNO_ADDITIONAL_SAS true).isEmpty then do
-        setState stESTABLISHED
-        let r ← generateDeleteIkeSaRequest
-        pure (.request r)
-      else do
-        match me.core.request with
-        | none => HM.raise excPython
-        | some req => let _ ← liftE (payNonce req true)
-        negotiateIkeResponse .succ response true true
-        handOver false
-        let r ← generateDeleteIkeSaRequest
-        pure (.request r)
-  else
-    match getNotifies response nINVALID_KE_PAYLOAD true with
-    | (_, _, data) :: _ => do
-      let r ← handleInvalidKe data
-      modCore fun k => { k with request := some r }
-      pure (.request r)
-    | [] => do
-      let prev := me.core.st
-      setState stESTABLISHED
-      match ← childNegotiationRes response with
-      | .created =>
-        if prev = stREK_CHILD_REQ_SENT then do
-          let me ← getMe
-          match me.ext.rekeying with
-          | some old =>
-            if me.ext.kids.any (childEq old) then do
-              let r ← generateDeleteChildSaRequest old
-              pure (.request r)
-            else pure .nothing
-          | none => pure .nothing
-        else pure .nothing
-      | .rejected => pure .nothing
-      | .invalid => do
-        let me ← getMe
-        match me.ext.creating with
-        | none => HM.raise excPython
-        | some c => let r ← generateDeleteChildSaRequest c; pure (.request r)
+  if me.core.st = stREK_IKE_SA_REQ_SENT then ikeRekeyResponse now response me else childSaResponse me.core.st response
 
 /-- `process_informational_response` -/
 def processInformationalResponse (response : Msg) : HM HRes := do
@@ -980,9 +991,7 @@ def processInformationalResponse (response : Msg) : HM HRes := do
   if me.core.st = stDEL_CHILD_REQ_SENT then do
     match me.ext.deleting with
     | some d =>
-      if me.ext.kids.any (childEq d) then do
-        untrackChild d
-      else pure ()
+      untrackChild d            -- `if self.deleting_child_sa not in self.child_sas: (log) else: delete, remove`
     | none => pure ()
     setState stESTABLISHED
     pure .nothing
